@@ -1042,7 +1042,23 @@ def rule_one_id_per_arity(ctx, rep: Report, rid="M5"):
             contrib.append(c.value)
         elif isinstance(c, ast.Return) and isinstance(c.value, (ast.ListComp, ast.GeneratorExp)):
             contrib.append(c.value.elt)
-    expanded = [any(isinstance(x, ast.Call) and unparse(x.func).endswith("_expand_default_arguments") for x in ast.walk(v)) for v in contrib]
+    def pure(v, depth=4):
+        """v is the complete default expansion of one method: the expansion call itself, a local bound only to
+        such values, or a concatenation (sum/+) of them; any filter, slice or other reshaping is not."""
+        if depth <= 0:
+            return False
+        if isinstance(v, ast.Call) and unparse(v.func).endswith("_expand_default_arguments"):
+            return True
+        if isinstance(v, ast.Name):
+            defs = [st.value for st in ast.walk(gm) if isinstance(st, ast.Assign) and any(isinstance(t, ast.Name) and t.id == v.id for t in st.targets)]
+            return bool(defs) and all(pure(d, depth - 1) for d in defs)
+        if isinstance(v, ast.BinOp) and isinstance(v.op, ast.Add):
+            return pure(v.left, depth - 1) and pure(v.right, depth - 1)
+        if isinstance(v, ast.Call) and unparse(v.func) == "sum" and v.args and isinstance(v.args[0], (ast.GeneratorExp, ast.ListComp)):
+            g = v.args[0]
+            return pure(g.elt, depth - 1) and not any(c.ifs for c in g.generators)
+        return False
+    expanded = [pure(v) for v in contrib]
     rep.add(rid, "_group_methods:every method is expanded into its arities (first occurrence and later overloads alike)",
             bool(contrib) and all(expanded), f"{sum(expanded)} of {len(contrib)} contributions to the grouped list go through "
             "_expand_default_arguments", f"{ci.mod.rel}:{gm.lineno}")
